@@ -155,3 +155,31 @@ Example C07_decorated_close_fixed_witness :
   let s := Pump.prun (Pump.pinit true) (PumpProofs.d8_schedule ++ [Pump.LSeeClosing; Pump.LPump; Pump.LPump; Pump.LPump; Pump.LCloseStep]) in
   Pump.closer s = Pump.CDone /\ Pump.pump s = Pump.PDone /\ Pump.out_closed s = true /\ Pump.dropped s = [1] /\ Pump.panicked s = false.
 Proof. exact PumpProofs.d8_fixed_witness. Qed.
+
+(** ** Round "proofs 3": every Close call can always go on - any mode *)
+From WM Require GoChannel.RegLive GoChannel.RegClose GoChannel.Compose GoChannel.ComposeLive GoChannel.ComposeClose.
+
+(** registry, ANY mode (blocking too), all schedules: while a Close call has started and not
+    returned some internal step is enabled - the D9 deadlock of blocking mode cannot hold up a
+    Close, because a Publish waiting for Acks sees g.closing.  With the measure of the registry
+    (every internal step decreases it, any mode) every maximal run of internal steps ends with
+    the Close returned. *)
+Theorem C07_close_never_stuck : forall pers blk fx ls t,
+  let s := grun (ginit pers blk fx) ls in
+  RegClose.tp_closing (Reg.thr s t) = true -> RegLive.Prog s.
+Proof. exact RegClose.close_never_stuck. Qed.
+Print Assumptions C07_close_never_stuck.
+(** once g.closing is closed nothing at all is stuck, in any mode *)
+Theorem C07_closing_progress : forall pers blk fx ls,
+  let s := grun (ginit pers blk fx) ls in
+  gclosing s = true -> RegLive.busy s -> RegLive.Prog s.
+Proof. exact RegClose.closing_progress. Qed.
+Print Assumptions C07_closing_progress.
+(** the same in the composed system (registry x one send protocol per subscription, s.Close()
+    of the teardown synchronised): the enabled step is registry-internal, a teardown's or
+    Sender's own step, or a consumer step *)
+Theorem C07_close_never_stuck_composed : forall pers blk fx caps fa cls t,
+  let c := Compose.crun (Compose.cinit pers blk fx caps fa) cls in
+  RegClose.tp_closing (Reg.thr (Compose.cg c) t) = true -> ComposeLive.CProg c.
+Proof. exact ComposeClose.close_never_stuck_composed. Qed.
+Print Assumptions C07_close_never_stuck_composed.
